@@ -35,6 +35,8 @@ mod kernel;
 mod netstat;
 mod rule;
 pub mod shim;
+#[cfg(feature = "verif-hooks")]
+pub mod verif;
 
 use crate::dns::Dns;
 pub use crate::dns::{ToIpAddr, ToIpAddrs};
